@@ -418,7 +418,7 @@ def rule_abort_stops(ck, rf, hm, loop, consts):
         return (True, u[1]) if X.calls_in_node(n, "self.stream.close") else u
 
     def ue(n, kind, u, env):
-        if n.kind == "test" and kind in ("true", "false") and canon_fact(n.ast, kind == "true") == ("self.stream is None", True):
+        if n.kind == "test" and kind in ("true", "false") and canon_fact(n.ast, kind == "true") in (("self.stream is None", True), ("self.stream", False)):
             return (u[0], True)
         return u
 
@@ -437,15 +437,15 @@ def rule_abort_stops(ck, rf, hm, loop, consts):
             if not exits or any(u.delivered or u.wrote or u.inflated or u.closed for u in exits):
                 bad.append(v)
     ck.ob(R, hm, hm.node, not bad, "_handle_message with client_terminated set: no delivery, no inflation, no frame written, for all 16 opcodes%s" % ((" - fails for " + ",".join(map(str, sorted(set(bad))))) if bad else ""), construct="terminated guard")
-    # loop condition
-    whiles = [n for n in q.walk_body(loop.node) if isinstance(n, ast.While) and any(q.is_call(c, "self._receive_frame") for c in q.calls(n))]
-    ck.floor(R, len(whiles), 1, "receive loops")
-    for w in whiles:
-        try:
-            stop = not q.fold(w.test, {"self.client_terminated": True})
-        except q.NotFoldable:
-            stop = False
-        ck.ob(R, loop, w.test, stop, "the receive loop stops reading frames once client_terminated is set")
+    # loop condition: with client_terminated set no further frame is read (decided on the CFG, whatever the loop form)
+    reads = loop.cfg.find(lambda x: q.is_call(x, "self._receive_frame"))
+    ck.floor(R, len(reads), 1, "frame reads in the receive loop")
+    seen_t = X.explore_consts(loop.cfg, {"self.client_terminated": True})
+    seen_f = X.explore_consts(loop.cfg, {"self.client_terminated": False})
+    for node, c in reads:
+        ck.ob(R, loop, c, not X.reached(seen_t, node), "the receive loop stops reading frames once client_terminated is set")
+        if not X.reached(seen_f, node):
+            raise AnalysisError("_receive_frame_loop: the frame read is not reachable even with client_terminated unset")
     # nothing after an abort in the parser (path-sensitive: decided on the explored states, not on graph reachability)
     cfg = rf.cfg
     n_ab = len(cfg.find(lambda x: q.is_call(x, "self._abort")))
